@@ -148,6 +148,8 @@ def scenarios(r, tier, tiny=False):
             for beh in rw.BEHAVIOURS:
                 if tiny and tier == "quick" and r.random() < 0.6:
                     continue
+                if tiny == "no-tls" and (kind in ("https", "socks5tls") or conn in ("c_https", "c_quic")):
+                    continue          # one TLS record per byte: a throughput exercise, not a fidelity one
                 reps = 1 if tier == "quick" else 3
                 for _ in range(reps):
                     size = r.choice(sizes_small)
@@ -158,6 +160,8 @@ def scenarios(r, tier, tiny=False):
                     if beh in ("source", "closefirst") and r.random() < 0.5:
                         size = r.choice([0, 1, 70_000])
                     segs = r.choice([None, [1, 2, 3, 5, 8, 13], [1460], [4096], [65536], [7, 70000, 1], [r.randint(1, 9000) for _ in range(5)]])
+                    if size > 300_000 and segs and sum(segs) / len(segs) < 8000:
+                        segs = [16384, 1, 70000]          # multi-MB payloads in small writes only measure the Python client
                     if size > 5_000 and segs and max(segs) < 1000:
                         segs = [16384, 1, 70000] if size > 300_000 else [1, 1460, 2, 4096]
                     early = 0
@@ -233,7 +237,7 @@ def run(tier, seed, replay=None):
     total, shapes, dist = 0, set(), collections.Counter()
     not_established = collections.Counter()
     for (splice, bufsz) in IO_CONFIGS[tier]:
-        tiny = bufsz < 1024
+        tiny = ("no-tls" if bufsz < 4 else True) if bufsz < 1024 else False
         scs = json.load(open(replay))["scenarios"] if replay else scenarios(r, tier, tiny)
         if replay:
             cfg = json.load(open(replay)).get("io")
